@@ -225,7 +225,6 @@ func vpC04GobMap(rounds int) {
 }
 
 func vpH_C04_gobmap()  { vpC04GobMap(1) }
-func vpT_C04_gobmap2() { vpC04GobMap(2) }
 
 // streams of the other wire shapes the decoders sniff: lists of streams, lists of IRIs, a bare value
 func vpH_C04_gobshapes() {
